@@ -176,4 +176,19 @@ def FlatPool.set (p : FlatPool) (i : Nat) (k : Key) : FlatPool :=
 def FlatPool.get (p : FlatPool) (i : Nat) : Key :=
   (p.buf.drop (i * p.size)).take (p.lens.getD i 0)
 
+/-- `NewBytePool(n, size)` / `NewFixedBytePool(n, size)`: zeroed buffer; the fixed pool always returns `size` bytes -/
+def FlatPool.new (n size : Nat) (fixed : Bool) : FlatPool :=
+  { size := size, buf := List.replicate (n * size) 0, lens := List.replicate n (if fixed then size else 0) }
+
+inductive PoolOut where
+  | ok | errIndex | errSize
+  deriving DecidableEq, Repr
+
+/-- `pool.Set(index, key)` with its two checks: `int(index) >= maxElemNum` -> error; wrong size
+    (`len(key) != elemSize` for the fixed pool, `len(key) > maxElemSize` otherwise) -> error; else store -/
+def FlatPool.trySet (p : FlatPool) (fixed : Bool) (i : Nat) (k : Key) : FlatPool × PoolOut :=
+  if i ≥ p.lens.length then (p, .errIndex)
+  else if (if fixed then k.length != p.size else decide (k.length > p.size)) then (p, .errSize)
+  else (p.set i k, .ok)
+
 end BfeVerif.C20
